@@ -405,8 +405,8 @@ impl<'a, R: Rng> Gen<'a, R> {
         if self.below(40) == 0 {
             return 8 + self.below(26);
         }
-        if self.below(600) == 0 {
-            return *self.pick(&[63usize, 64, 65, 100, 127, 128, 129, 255, 256, 257]);
+        if self.below(300) == 0 {
+            return *self.pick(&[63usize, 64, 65, 100, 127, 128, 129, 255, 256, 257, 257, 300]);
         }
         if self.below(25) == 0 {
             // a length that occurs as a number in deserr's sources (size thresholds), or one off
